@@ -13,6 +13,7 @@
 //        energy drift / accuracy, momentum drift, largest energy increase between reports, energy + dissipated drift.
 #include "mb_common.h"
 #include <cmath>
+#include <stdexcept>
 
 static void buildTree(MultibodySystem& sys, SimbodyMatterSubsystem& matter, Rng& r, int nb, bool floating, std::vector<int>& types) {
     for (int i = 0; i < nb; ++i) {
@@ -93,13 +94,14 @@ static void trajCase(int k, unsigned long long seed) {
             for (int i = 0; i < s.getNU(); ++i) s.updU()[i] = r.U(-0.5, 0.5);
             try {
                 sys.realize(s, Stage::Time); sys.project(s, 1e-10);
-                Integrator* integ = mkInteg(which, sys); integ->setAccuracy(acc); integ->setConstraintTolerance(std::min(1e-6, acc / 10));
+                Integrator* integ = mkInteg(which, sys); integ->setAccuracy(acc); integ->setConstraintTolerance(std::min(1e-6, acc / 10)); integ->setInternalStepLimit(4000);   // measurement budget per report interval
                 integ->initialize(s); const State& s0 = integ->getState(); sys.realize(s0, Stage::Dynamics);
                 Real E0 = sys.calcEnergy(s0), Escale = std::abs(sys.calcKineticEnergy(s0)) + std::abs(sys.calcPotentialEnergy(s0)) + 1e-3;
                 SpatialVec P0 = matter.calcSystemMomentumAboutGroundOrigin(s0); Real Pscale = std::sqrt(P0[0].normSqr() + P0[1].normSqr()) + 1e-3;
                 Real maxE = 0, maxP = 0, maxUp = 0, maxED = 0, prev = E0; int steps = 0;
                 for (int i = 1; i <= 50; ++i) {
-                    integ->stepTo(i * 0.02); const State& t = integ->getState(); sys.realize(t, Stage::Dynamics);
+                    Integrator::SuccessfulStepStatus ss = integ->stepTo(i * 0.02); if (ss == Integrator::ReachedStepLimit) throw std::runtime_error("measurement budget (4000 internal steps per 0.02 s) exhausted");
+                    const State& t = integ->getState(); sys.realize(t, Stage::Dynamics);
                     Real E = sys.calcEnergy(t); maxE = std::max(maxE, std::abs(E - E0)); maxUp = std::max(maxUp, E - prev); prev = E;
                     SpatialVec P = matter.calcSystemMomentumAboutGroundOrigin(t); maxP = std::max(maxP, std::sqrt((P[0] - P0[0]).normSqr() + (P[1] - P0[1]).normSqr()));
                     if (bush) maxED = std::max(maxED, std::abs(E + bush->getDissipatedEnergy(t) - E0));
